@@ -1044,12 +1044,43 @@ def geometry_rule(ctx, rid="R8.E1"):
             bad = check("after a query on the deformed configuration", Q(2), want_c)
             if bad:
                 return bad
+            # point location: a symbolic linear nodal field is reproduced at arbitrary points, before and after the mesh moves
+            def locate(label, shift):
+                cur = XArray.from_nested(W.get(mesh, "coord"))
+                coef = [Poly.var(f"l{k}") for k in range(dim + 1)]
+                fld = lambda X: coef[0] + sum((coef[k + 1] * X[k] for k in range(dim)), Poly.const(0))
+                vals = XArray((md.Nn,), [fld([_pn(cur[n, k]) for k in range(dim)]) for n in range(md.Nn)])
+                base = [(Q(1, 3), Q(1, 4), Q(1, 5)), (Q(3, 2), Q(3, 4), Q(2, 3)), (Q(1, 2), Q(1, 2), Q(1, 2)), (Q(7, 4), Q(1, 8), Q(7, 8))]
+                pts = [tuple((p[k] if k < dim else Q(0)) + shift[k] for k in range(3)) for p in base]
+                got = W.call(mesh, "Evaluate_dofsValues_at_coordinates", XArray((len(pts), 3), [v for p in pts for v in p]), vals)
+                got = polys(got)
+                for p, g in zip(pts, got):
+                    if not eq(g, fld(p)):
+                        return f"{elem}, point location {label}: the linear nodal field evaluated at {tuple(str(c) for c in p[:dim])} gives {g}, the field is {fld(p)} there"
+                return None
+
+            if elem in ("TRI3", "TETRA4", "TRI6"):
+                bad = locate("as built", (Q(0), Q(0), Q(0)))
+                if bad:
+                    return bad
             # rigid motions
             W.call(mesh, "Translate", Q(3), Q(-1, 2), Q(0))
             bad = check("after Translate(3, -1/2, 0)", Q(2), [want_c[0] + 3, want_c[1] - Q(1, 2), want_c[2]])
             if bad:
                 return bad
+            if elem in ("TRI3", "TETRA4", "TRI6"):
+                bad = locate("after Translate(3, -1/2, 0)", (Q(3), Q(-1, 2), Q(0)))
+                if bad:
+                    return bad
             W.call(mesh, "Symmetry", (Q(0), Q(0), Q(0)), (Q(1), Q(0), Q(0)))
+            if elem in ("TRI3", "TETRA4", "TRI6"):
+                # a mirrored mesh: locate first (the inverse map reads the SIGNED Jacobian), then integrate with the same rule
+                cur = XArray.from_nested(W.get(mesh, "coord"))
+                W.call(mesh, "Evaluate_dofsValues_at_coordinates", XArray((1, 3), [_pn(cur[0, k]) for k in range(3)]), XArray((md.Nn,), [Q(1)] * md.Nn))
+                tot = sum((polys(W.call(g, "Integrate_e", src_lambda(W, "lambda x, y, z: 1"), mass)) for g in W.call(mesh, "Get_list_groupElem", dim)), [])
+                tot = sum(tot, Poly.const(0))
+                if not eq(tot, Q(2)):
+                    return f"{elem}, mirrored mesh, after a point was located: the integral of 1 with the mass rule is {tot}, the domain measures 2"
             bad = check("after Symmetry about x = 0", Q(2), [-(want_c[0] + 3), want_c[1] - Q(1, 2), want_c[2]])
             if bad:
                 return bad
